@@ -193,6 +193,14 @@ func (s *Server) Exit(ctx context.Context) error {
 
 func (s *Server) DidOpen(ctx context.Context, params *protocol.DidOpenTextDocumentParams) error {
 	s.documents.Store(params.TextDocument.URI, params.TextDocument.Text)
+	if path := uriToPath(params.TextDocument.URI); path != "" {
+		// the buffer may differ from the file on disk that the workspace and the
+		// include cache were loaded from
+		if s.workspace != nil {
+			s.workspace.UpdateFile(path, params.TextDocument.Text)
+		}
+		s.loader.InvalidateFile(path)
+	}
 	version := s.nextDocVersion(params.TextDocument.URI)
 	go s.publishDiagnosticsVersion(ctx, params.TextDocument.URI, params.TextDocument.Text, version)
 	return nil
